@@ -7,7 +7,10 @@
    Events (field "t" = call id):
      reset     {api, ctor, mode}             new trace: fresh connection object, no calls
      call      {t}                            harness invokes Transact
-     begin     {t, ok}                        driver Begin attempt answered
+     begin     {t, ok, b}                     driver Begin attempt answered; b: begun on a context that
+                                              can end (sql.DB.BeginTx(ctx)), i.e. bound to it
+     ctxDone   {t, how}                       the harness ends the caller's context of call t (written
+                                              before it does so)
      body      {t}                            user function entered
      stmt      {t, x, k, kind, ok}            driver saw a statement of call t on a connection
                                               whose open transaction belongs to call x (0: none)
@@ -37,7 +40,9 @@ RetKind == IF E.p THEN "panic" ELSE IF E.nil THEN "nil" ELSE "err"
 
 TReset    == IsEvent("reset")    /\ cs' = <<>> /\ dev' = FALSE
 TCall     == IsEvent("call")     /\ Call(E.t)
-TBegin    == IsEvent("begin")    /\ Step(E.t, Ev("begin", OkFail(E.ok)))
+Bound     == "b" \in DOMAIN E /\ E.b
+TBegin    == IsEvent("begin")    /\ Step(E.t, Ev("begin", IF ~E.ok THEN "fail" ELSE IF Bound THEN "okb" ELSE "ok"))
+TCtxDone  == IsEvent("ctxDone")  /\ Step(E.t, Ev("ctxDone", ""))
 TBody     == IsEvent("body")     /\ Step(E.t, Ev("body", ""))
 TStmt     == IsEvent("stmt")     /\ Step(E.t, Ev("stmt", IF E.x = E.t THEN OkFail(E.ok) ELSE "foreign"))
 TNest     == IsEvent("nest")     /\ Step(E.t, Ev("nest", IF ~E.ran /\ ~E.nil THEN "refused" ELSE "accepted"))
@@ -46,14 +51,15 @@ TCommit   == IsEvent("commit")   /\ Step(E.t, Ev("commit", OkFail(E.ok)))
 TRollback == IsEvent("rollback") /\ Step(E.t, Ev("rollback", OkFail(E.ok)))
 TRet      == IsEvent("ret")      /\ Step(E.t, RetEv(RetKind, SeqToSet(E.rep)))
 \* end of a trace: every call has returned, and the driver's own count of open transactions
-\* agrees with the specification's (none: a returned call has ended its transaction)
+\* agrees with the specification's (none: a returned call has ended its transaction -- but for
+\* context-bound ones database/sql has not got round to rolling back yet)
 TEnd      == /\ IsEvent("end")
              /\ \A t \in DOMAIN cs : cs[t].ret # "pending"
              /\ E.open = Cardinality({t \in DOMAIN cs : cs[t].tx = "open"})
              /\ UNCHANGED <<cs, dev>>
 
 TInit == PInit /\ l = 1
-TNext == TReset \/ TCall \/ TBegin \/ TBody \/ TStmt \/ TNest \/ TBodyEnd
+TNext == TReset \/ TCall \/ TBegin \/ TCtxDone \/ TBody \/ TStmt \/ TNest \/ TBodyEnd
          \/ TCommit \/ TRollback \/ TRet \/ TEnd
 TSpec == TInit /\ [][TNext]_tvars
 
